@@ -28,12 +28,13 @@ def run_models(ctx, pid):
     if pid in ('C04', 'C07'):
         jobs += [
             lambda: tlc_mc(ctx, 'ms_2t_1push2pop', 'MSQueue', ms_consts(), invariants=INV_MS, view='mcview', workers=6),
-            lambda: tlc_mc(ctx, 'ms_2t_2push2pop', 'MSQueue', ms_consts(NNodes=4, MaxPush=2, MaxPop=2), invariants=INV_MS, view='mcview', workers=8, tmo=1500,
+            lambda: tlc_mc(ctx, 'ms_2t_2push1pop', 'MSQueue', ms_consts(NNodes=4, MaxPush=2, MaxPop=1), invariants=INV_MS, view='mcview', workers=8, tmo=1500,
                            must_cover=MS_ACTIONS),
             lambda: tlc_mc(ctx, 'ms_toggle_nohelp', 'MSQueue', ms_consts(HelpTail=False), invariants=INV_MS, view='mcview', expect='violation'),
         ]
         if not q:
-            jobs += [lambda: tlc_mc(ctx, 'ms_3t', 'MSQueue', ms_consts(NT=3, NNodes=4, MaxPush=1, MaxPop=1), invariants=INV_MS, view='mcview', workers=12,
+            jobs += [lambda: tlc_mc(ctx, 'ms_2t_2push2pop', 'MSQueue', ms_consts(NNodes=4, MaxPush=2, MaxPop=2), invariants=INV_MS, view='mcview', workers=8, tmo=1500),
+                     lambda: tlc_mc(ctx, 'ms_3t', 'MSQueue', ms_consts(NT=3, NNodes=4, MaxPush=1, MaxPop=1), invariants=INV_MS, view='mcview', workers=12,
                                     tmo=3000, heap='24g'),
                      lambda: tlc_mc(ctx, 'ms_2t_3ops', 'MSQueue', ms_consts(NNodes=5, MaxPush=3, MaxPop=3), invariants=INV_MS, view='mcview', workers=12,
                                     tmo=3000, heap='24g')]
